@@ -181,7 +181,7 @@ def run(ctx):
     quick = ctx.tier == "quick"
     frng = random.Random(15)
     specs = []
-    for spec in graphs.family_specs(frng, sizes=(4, 7), ecls=graphs.ECLS_X, vcls=graphs.VCLS_X):
+    for spec in graphs.family_specs(frng, sizes=(4, 7), ecls=graphs.ECLS_X, vcls=graphs.VCLS_XB):
         spec = dict(spec)
         if spec["uni"] is None:
             spec["uni"] = list(range(len(spec["verts"])))
@@ -205,7 +205,7 @@ def run(ctx):
                 continue
             spec = specs[n]
         else:
-            spec = graphs.rand_spec(rng, nmax=7 if quick else 14, mmax=12 if quick else 35, ecls=graphs.ECLS_X, vcls=graphs.VCLS_X,
+            spec = graphs.rand_spec(rng, nmax=7 if quick else 14, mmax=12 if quick else 35, ecls=graphs.ECLS_X, vcls=graphs.VCLS_XB,
                                     uni_mode="rand", self_p=0.15)
             if spec["uni"] is None:
                 spec["uni"] = [i for i in range(len(spec["verts"])) if rng.random() < 0.8]
